@@ -10,7 +10,10 @@ from props.c03 import toy_cases
 
 MODULE = 'UwgVerif.Props.C10'
 THEOREMS = ['Uwg.C10.records_complete_on_return', 'Uwg.C10.timestep_refused', 'Uwg.C10.return_or_exception',
-            'Uwg.C10.bounds_on_return', 'Uwg.C10.zero_load_defined', 'Uwg.C10.load_fraction_bounds']
+            'Uwg.C10.bounds_on_return', 'Uwg.C10.zero_load_defined', 'Uwg.C10.load_fraction_bounds',
+            # reader totality / fail-stop (model and proofs of C06): the repaired reader is a structural
+            # recursion (cannot loop), raises on a malformed row, and the pre-repair reader diverged
+            'Uwg.C06.repaired_reader_raises', 'Uwg.C06.reader_malformed_raises', 'Uwg.C06.asis_reader_diverges']
 
 
 class Hang(Exception):
@@ -84,7 +87,7 @@ def numeric_file(path, first, n, prec):
 
 
 def run(chk):
-    chk.proof(MODULE, THEOREMS)
+    chk.proof(MODULE, THEOREMS, extra_modules=['UwgVerif.Props.C06'])
     if chk.tier == 'thorough':
         chk.leanchecker([MODULE])
     rng = chk.rng
